@@ -154,6 +154,15 @@ func TestSelf(t *testing.T) {
 	}
 	selfBug = ""
 
+	// ---- 3b. a refused swap (writable swap store, read-only replacement) that closes the store in use
+	wl := func() *Node { return L(1, 1) }
+	refused := Case{Mode: "seq", Seed: 3, Chain: N("swap", wl()), Ops: []Op{G(0), {Op: "swap", New: N("router", L(1))}, G(0), H(1), {Op: "store", ID: 2}, {Op: "swap", New: wl()}, G(0)}}
+	selfBug = "refused-swap-closes"
+	if o := run(refused); !hasSig(o, "C11:swap:refused-swap-closed-store") || !hasSig(o, "C11:swap:use-after-close") {
+		bad("a refused swap that closes the wrapped store is not flagged: %v", sigs(o))
+	}
+	selfBug = ""
+
 	// ---- 4. the concurrent oracle flags a group that fails although its anchor is healthy
 	selfBug = "failover-always-fails"
 	o := run(Case{Mode: "conc", Chain: N("failover", ro(down(L(1))), ro(anchor(L(1)))), Rounds: []Round{{Reqs: [][]Op{{G(0)}, {G(3)}}}}})
@@ -310,5 +319,27 @@ func TestEnum(t *testing.T) {
 		}
 	}
 	hx.Exhaustive("cache(upstream in {absent, valid, invalid, down, fail at 1st call}, local in {absent, valid, invalid, down, store fails once, invalid + get fails once}) x repair on/off x bare/dedup/swap x all get/has histories of length <=3")
+
+	// (d) writable swap stores: every history of length <=4 over get / has / store / refused swap / accepted swap
+	wleaf := func() *Node { return L(1, 0) }
+	sh := seqs([]Op{G(0), H(1), {Op: "store", ID: 1}, {Op: "swap", New: N("router", L(1))}, {Op: "swap", New: L(0, 1)}}, hx.Pick(4, 5))
+	for _, h := range sh {
+		// deep copy of the replacement chains: a history may swap the same specification in twice
+		hc := make([]Op, len(h))
+		for i, op := range h {
+			hc[i] = op
+			if op.New != nil {
+				if op.New.K == "router" {
+					hc[i].New = N("router", L(1))
+				} else {
+					hc[i].New = L(0, 1)
+				}
+			}
+		}
+		if !try(func() *Node { return N("swap", wleaf()) }, hc) {
+			return
+		}
+	}
+	hx.Exhaustive("writable swap store over a leaf x all histories of length <=" + fmt.Sprint(hx.Pick(4, 5)) + " over get / has / store / swap refused (read-only replacement) / swap accepted (writable replacement)")
 	hx.Note("enumerated_cases", count)
 }
